@@ -17,7 +17,7 @@ pub fn spec() -> Spec {
     Spec {
         prop: "C08",
         level: "exploration",
-        rule: "Pool reference model written from the statement (per signer: next nonce, waiting map nonce -> (payload, arrival block)); after every brc20_transact and every finalise the receipts (count, consecutive indexes, nonces, sender), txpool_contentFrom and eth_getTransactionCount are compared with the model; at the end the executed nonces of every signer must be 0,1,2,... each once. Exhaustive small scope: all arrival orders of nonces {0..k-1} of a fresh signer x all gap patterns from {same block,+1,+9,+10,+11} (k=3 quick, k=4 thorough) plus duplicate / replacement / stale / far-future / wrong-chain / undecodable variants; random beyond (3 signers, nonces to 15, interleaved inscription transactions, reorgs, clearCaches). After an expired entry is dropped the model admits both 'later entries kept' and 'later entries dropped'. Non-trivial = script in which >=1 transaction was parked and later drained or expired; distinct by (arrival order, gaps, variant).",
+        rule: "Pool reference model written from the statement (per signer: next nonce, waiting map nonce -> (payload, arrival block)); after every brc20_transact and every finalise the receipts (count, consecutive indexes, nonces, sender), txpool_contentFrom and eth_getTransactionCount are compared with the model; at the end the executed nonces of every signer must be 0,1,2,... each once. Exhaustive small scope: all arrival orders of nonces {0..k-1} of a fresh signer x all gap patterns from {same block,+1,+9,+10,+11} (k=3 quick, k=4 thorough) plus duplicate / replacement / stale / far-future / wrong-chain / undecodable variants; random beyond (3 signers, nonces to 15, interleaved inscription transactions, reorgs, clearCaches). After an expired entry is dropped the model admits both 'later entries kept' and 'later entries dropped'. Window runs: a signer parks the whole admissible window (or all but one / all but the last / a random subset) in shuffled order over one to three blocks while a second signer interferes, then the predecessor arrives. Non-trivial = script in which >=1 transaction was parked and later drained or expired; distinct by (arrival order, gaps, variant).",
         assumptions: vec!["inscription_byte_len >= raw length, so every signed transaction at the right nonce is valid and consumes its nonce".into()],
         exhaustive: false,
         min_nontrivial: 2,
@@ -580,6 +580,67 @@ fn random_run(ctx: &WorkerCtx, rep: &mut WorkerReport, net: &str, case_seed: u64
     drop_driver(run.d);
 }
 
+/// Long waiting chains: a signer parks most or all of the admissible window (nonces next+1 .. next+9)
+/// in shuffled order over one to three blocks, a second signer interferes, then the missing
+/// predecessor arrives and the whole chain must run in that one call.
+fn window_run(ctx: &WorkerCtx, rep: &mut WorkerReport, net: &str, case_seed: u64) {
+    let mut rng = Rng::new(case_seed);
+    let Some(mut run) = Run::new(ctx, net) else { return };
+    let signers: Vec<Signer> = (0..2).map(|i| signer_from(case_seed.wrapping_mul(131) + 7 + i)).collect();
+    run.script = vec![format!("window run seed {}", case_seed)];
+    let rounds = if ctx.thorough() { 6 } else { 3 };
+    for round in 0..rounds {
+        let s = signers[0].clone();
+        let other = signers[1].clone();
+        let next = run.model.signers.get(&s.addr).map(|m| m.next).unwrap_or(0);
+        let shape = rng.below(4);
+        let gap = rng.range(2, 8);
+        let mut set: Vec<u64> = match shape {
+            0 => (1..=9).collect(),                                   // the whole window
+            1 => (1..=9).filter(|k| *k != gap).collect(),             // one gap
+            2 => (1..=8).collect(),                                   // all but the last admissible
+            _ => (1..=9).filter(|_| rng.chance(2, 3)).collect(),
+        };
+        rng.shuffle(&mut set);
+        let per_block = *rng.pick(&[9usize, 9, 5, 3]);
+        let mut ok = true;
+        for (i, k) in set.iter().enumerate() {
+            if i > 0 && i % per_block == 0 {
+                ok = ok && run.finalise(rep, &signers);
+            }
+            ok = ok && run.transact(rep, &s, next + k, "plain");
+            if ok && rng.chance(1, 4) {
+                let on = run.model.signers.get(&other.addr).map(|m| m.next).unwrap_or(0);
+                ok = run.transact(rep, &other, on + rng.below(3), "plain");
+            }
+            if !ok {
+                break;
+            }
+        }
+        if ok && rng.chance(1, 3) {
+            ok = run.finalise(rep, &signers);
+        }
+        // the predecessor: everything consecutive behind it runs now
+        ok = ok && run.transact(rep, &s, next, "plain");
+        if ok {
+            let m = run.model.signers.get(&s.addr).cloned().unwrap_or_default();
+            rep.nontrivial(format!("window:shape{}:{}-parked:{}-left", shape, set.len(), m.waiting.len()));
+            rep.count("window_rounds", 1);
+            // the nonce just beyond the drained chain
+            ok = run.transact(rep, &s, m.next, "plain");
+        }
+        ok = ok && run.finalise(rep, &signers);
+        if ok && round % 2 == 1 {
+            ok = run.skip(rep, 11, &signers);
+        }
+        if !ok {
+            drop_driver(run.d);
+            return;
+        }
+    }
+    drop_driver(run.d);
+}
+
 pub fn worker(ctx: &WorkerCtx) -> WorkerReport {
     let (net, traces) = net_for_shard(ctx.shard);
     crate::setup_env(net, traces);
@@ -589,6 +650,10 @@ pub fn worker(ctx: &WorkerCtx) -> WorkerReport {
     for _ in 0..(if ctx.thorough() { 12 } else { 2 }) {
         let cs = rng.next();
         random_run(ctx, &mut rep, net, cs);
+    }
+    for _ in 0..(if ctx.thorough() { 6 } else { 1 }) {
+        let cs = rng.next();
+        window_run(ctx, &mut rep, net, cs);
     }
     rep
 }
